@@ -3,7 +3,7 @@ end-of-session pipeline through CPython's audit events and injects ONE fault at 
 
   $VERIF_FAULT_LOG   file receiving one JSON line per boundary event (written outside the project)
   $VERIF_FAULT_PLAN  JSON {"index": k, "kind": "exception" | "crash" | "write-exception" | "write-crash"
-                           | "fmt-exit1" | "fmt-garbage" | "fmt-nonutf8" | "fmt-raise"}   (k counts from 1)
+                           | "fmt-exit1" | "fmt-garbage" | "fmt-empty" | "fmt-nonutf8" | "fmt-raise"}   (k counts from 1)
 
 Boundary events (armed from the start of pytest_sessionfinish, which runs before inline-snapshot's hook):
   open-r <file>   a test file is opened for reading        open-w <file>   ... for writing (truncates)
@@ -130,6 +130,9 @@ def _patch_formatters():
                 return subprocess.CompletedProcess(cmd, 1, b"", b"verif: injected formatter failure")
             if fault == "fmt-garbage":
                 return subprocess.CompletedProcess(cmd, 0, b"def broken(:\n    ]]] not python\n", b"")
+            if fault == "fmt-empty":
+                # a formatter that succeeds and prints nothing (valid Python - but not the program)
+                return subprocess.CompletedProcess(cmd, 0, b"", b"")
             if fault == "fmt-nonutf8":
                 return subprocess.CompletedProcess(cmd, 0, b"x = '\xff\xfe'\n", b"")
             if fault == "fmt-raise":
@@ -147,6 +150,8 @@ def _patch_formatters():
                     raise black.InvalidInput("verif: injected black failure")
                 if fault == "fmt-garbage":
                     return "def broken(:\n    ]]] not python\n"
+                if fault == "fmt-empty":
+                    return ""
             return real_fmt(src, *a, **kw)
         black.format_str = format_str
     except Exception:  # noqa
